@@ -94,3 +94,14 @@ package parser
 //@   requires p != nil
 //@   fails_iff chainN(expr) || malformedBin(expr)
 //@   ensures result == expr
+
+// Parentheses (C10): a parenthesised expression is always a Group node around
+// the expression parsed between the parentheses - the node that tells
+// `(o.f)(x)` (call the function stored in field f) from `o.f(x)` (method-call
+// sugar) until Desugar removes it.
+//@ func parseGroup
+//@   props C10 C08
+//@   requires p != nil && t != nil
+//@   modifies p.idx
+//@   records (*parser).expr
+//@   ensures #group scalls() == 1 && scall(0, expr, p) && sarg(0, expr, 1) == 0 && typeis(result, *ast.GroupExpr) && result.(*ast.GroupExpr) != nil && result.(*ast.GroupExpr).SubExpr == sret(0, expr)
